@@ -33,7 +33,8 @@ RULE = (
     "random Cartesian deltas), alias cases over validate_aberration_coefficients / standardize_aberration_coefs / "
     "ProbePixelated+ProbeParametric probe_params (top-level, nested aberration_coefs, re-assignment) / DirectPtychography "
     "(constructor, override, reconstruct twin runs), fit cases over random (C10, C12, phi12, rotation) in the identifiable "
-    "domain on random bright-field masks and grids. Every coefficient set is evaluated at 200 (quick) / 1000 (thorough) "
+    "domain on random bright-field masks and grids, end-to-end fit histories (3 fits + an unrelated reconstruct on one "
+    "DirectPtychography object built from a synthesised virtual bright-field stack). Every coefficient set is evaluated at 200 (quick) / 1000 (thorough) "
     "random (alpha, phi) points plus axis points. Non-trivial = alpha>0 and at least one non-zero coefficient (alias: "
     "defocus != 0; fit: C10 != 0); distinct = (kind, symbol/label or coefficient-set id, scale)"
 )
@@ -43,6 +44,7 @@ ASSUMPTIONS = [
     "gradients are judged at alpha > 0 only (atan2 is not differentiable at the origin)",
     "polar -> Cartesian -> polar is judged on the surface, not on the coefficients (C<0 legitimately comes back as |C| with a shifted angle)",
     "fit domain: |rotation| < pi/2 - 0.05, |C10| >= 20 A, 0 <= C12 <= 0.8 |C10| (the polar decomposition cannot identify a rotation for an indefinite aberration matrix), >= 5 bright-field pixels spanning both axes; phi12 is judged through (C12 cos 2phi12, C12 sin 2phi12), i.e. modulo pi and ignored when C12 = 0; bound 1e-4 relative (float32 internals, measured ~3e-7)",
+    "end-to-end fit (fit_hyperparameters_cross_correlation on a stack synthesised by Fourier-translating one band-limited image by the predicted shifts, bin_factors=(2,1), default upsample 4): max shift 1.2-2.3 px, C12 <= 0.3 |C10|, |rotation| <= 1.2; accuracy is limited by the 1/4 px shift quantisation: measured floor over 330 scenes on the unchanged tree 2.8e-2 (coefficients, relative to |C10|) and 1.2e-2 rad; bounds 0.15 and 0.1 rad (a fit that measures only a residual is off by ~1); repeated fits with identical arguments are bit-identical on the unchanged tree and are judged at 0.1 / 0.05 rad (two fits within the floor of the truth differ by at most twice the floor)",
     "alias inputs never give both 'defocus' and 'C10' (contradictory input)",
     "standardize_aberration_coefs returns float32 tensors: coefficient values judged at 1e-5 relative (float32 rounding 6e-8); the surface of float32-rounded coefficients at 5e-5 of the sum of term magnitudes (rounded angles enter as m*dphi, hard limit 1.1e-6, measured 1.7e-7; a sign error of the alias is >= 1e-2)",
 ]
@@ -58,6 +60,8 @@ REQUIRED_COUNTERS = [
     "eval:merge_is_sum",
     "eval:alias_defocus",
     "eval:fit_recovers",
+    "eval:fit_e2e_recovers",
+    "eval:fit_e2e_repeatable",
 ]
 EXHAUSTIVE = {"quick": False, "thorough": False}
 
@@ -97,6 +101,8 @@ def plan(tier, seed):
         specs.append({"kind": "alias_direct", "rep": r})
     for r in range(300 if q else 90000):
         specs.append({"kind": "fit", "rep": r})
+    for r in range(42 if q else 420):
+        specs.append({"kind": "fit_e2e", "rep": r})
     rng = np.random.default_rng([seed, 12, 3])
     order = rng.permutation(len(specs))
     return [specs[0]] + [specs[i] for i in order if i != 0]
@@ -691,9 +697,94 @@ def run_fit(spec, idx, ctx):
     ctx.observe(coefs=coefs, rotation=rot, fit=fit, n_bf=nbf, gpts=gpts, residual=max(res, dr))
 
 
+def _e2e_scene(ctx, rng):
+    """virtual bright-field stack whose images are one band-limited image displaced by the predicted shifts"""
+    st = ctx.state
+    dpm, Dataset2d, Dataset3d = st["dpm"], st["Dataset2d"], st["Dataset3d"]
+    S = (int(rng.integers(28, 41)), int(rng.integers(28, 41)))
+    ss = (float(rng.uniform(0.8, 1.25)),) * 2 if rng.random() < 0.5 else (float(rng.uniform(0.8, 1.25)), float(rng.uniform(0.8, 1.25)))
+    G = (int(rng.integers(10, 15)), int(rng.integers(10, 15)))
+    dk = (float(rng.uniform(0.04, 0.06)), float(rng.uniform(0.04, 0.06)))
+    energy = float(rng.choice([80e3, 200e3, 300e3]))
+    wl = _lambda(energy)
+    kx = np.fft.fftfreq(G[0], 1 / (G[0] * dk[0]))
+    ky = np.fft.fftfreq(G[1], 1 / (G[1] * dk[1]))
+    KX, KY = np.meshgrid(kx, ky, indexing="ij")
+    rad = float(rng.uniform(2.6, 3.8)) * max(dk)
+    mask = (KX**2 + KY**2) <= rad**2
+    amax = rad * wl
+    maxshift = float(rng.uniform(1.2, 3.0))
+    c10 = float(rng.choice([-1, 1])) * maxshift * min(ss) / amax / 1.3
+    c12 = float(rng.uniform(0.0, 0.3)) * abs(c10)
+    phi12 = float(rng.uniform(-PI / 2, PI / 2))
+    rot = float(rng.uniform(-1.2, 1.2))
+    av = np.stack([KX[mask], KY[mask]], 1) * wl
+    R = np.array([[math.cos(rot), -math.sin(rot)], [math.sin(rot), math.cos(rot)]])
+    ca, cb = c12 * math.cos(2 * phi12), c12 * math.sin(2 * phi12)
+    A = np.array([[c10 + ca, cb], [cb, c10 - ca]])
+    s_px = (A @ (R @ av.T)).T / np.array(ss)
+    base = rng.normal(size=S)
+    qx = np.fft.fftfreq(S[0])[:, None]
+    qy = np.fft.fftfreq(S[1])[None, :]
+    Fb = np.fft.fft2(base) * np.exp(-(qx**2 + qy**2) / (2 * 0.08**2))
+    b = np.fft.ifft2(Fb).real
+    Fb = np.fft.fft2(b / b.std())
+    # the image recorded at detector pixel k is the common image displaced by -s_k (the model's +s_k aligns them)
+    ramp = np.exp(2j * np.pi * (qx[None] * s_px[:, 0, None, None] + qy[None] * s_px[:, 1, None, None]))
+    stack = (1.0 + 0.1 * np.fft.ifft2(Fb[None] * ramp).real).astype(np.float32)
+    vbf = Dataset3d.from_array(stack, units=("index", "A", "A"), sampling=(1.0,) + ss)
+    bfm = Dataset2d.from_array(mask, units=("A^-1", "A^-1"), sampling=dk)
+    dp = dpm.DirectPtychography.from_virtual_bfs(vbf, bfm, energy=energy, rotation_angle=0.0, semiangle_cutoff=rad * wl * 1e3, crop_bf_mask=False, verbose=False, rng=0)
+    truth = {"C10": c10, "C12": c12, "phi12": phi12, "rotation": rot, "ca": ca, "cb": cb}
+    return dp, truth, {"scan": S, "gpts": G, "n_bf": int(mask.sum()), "max_shift_px": float(np.abs(s_px).max())}
+
+
+def run_fit_e2e(spec, idx, ctx):
+    """history of fits on ONE object: every fit must return the generating values, not only the first"""
+    rng = ctx.rng(idx)
+    dp, t, info = _e2e_scene(ctx, rng)
+    guessed = bool(spec["rep"] % 2)
+    guess = {"aberration_coefs": {"C10": t["C10"] * float(rng.uniform(0.6, 1.3))}, "rotation_angle": t["rotation"] + float(rng.uniform(-0.2, 0.2))} if guessed else {}
+    other = {"override_aberration_coefs": {"defocus": float(rng.uniform(-300, 300)), "C12": float(rng.uniform(0, 50))}, "override_rotation_angle": float(rng.uniform(-1, 1)), "deconvolution_kernel": str(rng.choice(["ssb", "icom", "prlx"]))}
+    #         (kwargs, label)
+    if guessed:
+        steps = [("fit", guess, "guess"), ("reconstruct", other, ""), ("fit", guess, "guess"), ("fit", {}, "plain")]
+    else:
+        steps = [("fit", {}, "plain"), ("fit", {}, "plain"), ("reconstruct", other, ""), ("fit", {}, "plain")]
+    seen = {}
+    nfit = 0
+    after_recon = False
+    log = []
+    for kind, kw, label in steps:
+        if kind == "reconstruct":
+            dp.reconstruct(verbose=False, **kw)
+            after_recon = True
+            continue
+        nfit += 1
+        dp.fit_hyperparameters_cross_correlation(bin_factors=(2, 1), verbose=False, **{k: (dict(v) if isinstance(v, dict) else v) for k, v in kw.items()})
+        c, r = dict(dp.aberration_coefs), float(dp.rotation_angle)
+        fa, fb = c.get("C12", 0.0) * math.cos(2 * c.get("phi12", 0.0)), c.get("C12", 0.0) * math.sin(2 * c.get("phi12", 0.0))
+        vec = (c.get("C10", 0.0), fa, fb, r)
+        f = {"kind": "fit_e2e", "call": "first" if nfit == 1 else "repeated", "after_other_reconstruct": after_recon, "seeded_with_guess": label == "guess"}
+        ec = max(abs(vec[0] - t["C10"]), abs(fa - t["ca"]), abs(fb - t["cb"])) / abs(t["C10"])
+        er = abs(r - t["rotation"])
+        ctx.close(ec, 0.15, "fit_e2e_recovers", lambda: "fit #%d returned %r rotation %r; the shifts were generated with C10=%r C12=%r phi12=%r rotation=%r" % (nfit, c, r, t["C10"], t["C12"], t["phi12"], t["rotation"]), quantity="coefficients", **f)
+        ctx.close(er, 0.1, "fit_e2e_recovers", lambda: "fit #%d returned rotation %r, generated with %r" % (nfit, r, t["rotation"]), quantity="rotation", **f)
+        if label in seen:
+            v0 = seen[label]
+            dc = max(abs(vec[i] - v0[i]) for i in range(3)) / abs(t["C10"])
+            ctx.close(dc, 0.1, "fit_e2e_repeatable", lambda: "fit #%d with the same arguments on the same object returned %r, an earlier call returned %r" % (nfit, vec, v0), quantity="coefficients", **f)
+            ctx.close(abs(vec[3] - v0[3]), 0.05, "fit_e2e_repeatable", lambda: "rotation %r vs %r from an earlier identical call" % (vec[3], v0[3]), quantity="rotation", **f)
+        else:
+            seen[label] = vec
+        log.append({"fit": nfit, "args": label, "after_other_reconstruct": after_recon, "coef_err": ec, "rot_err": er})
+    ctx.nontrivial(("fit_e2e", spec["rep"]), True)
+    ctx.observe(truth={k: t[k] for k in ("C10", "C12", "phi12", "rotation")}, scene=info, fits=log)
+
+
 def run_case(spec, idx, ctx):
     k = spec["kind"]
-    fn = {"names": run_names, "onehot_polar": run_onehot_polar, "onehot_cart": run_onehot_cart, "dense": run_dense, "alias_fn": run_alias_fn, "alias_probe": run_alias_probe, "alias_direct": run_alias_direct, "fit": run_fit}.get(k)
+    fn = {"names": run_names, "onehot_polar": run_onehot_polar, "onehot_cart": run_onehot_cart, "dense": run_dense, "alias_fn": run_alias_fn, "alias_probe": run_alias_probe, "alias_direct": run_alias_direct, "fit": run_fit, "fit_e2e": run_fit_e2e}.get(k)
     if fn is None:
         raise HarnessError("unknown case kind %r" % k)
     with np.errstate(all="ignore"):
